@@ -5,9 +5,6 @@ import Proofs.C14Machine
 
 Two layers.
 
-NOTE (G14-1): on the current source one field, `csvFields`, fails its obligation (`classified_fails`, `leaks_exact`); the
-field-level theorems are therefore `_partial` (they leave the fields in `leaks` out of what the semantics may read).
-
 **Field level** (`GoawkModel.C14Fields`): every field of the Go `interp` struct is classified, and `resetCore`, `resetVars`,
 `ResetRand`, `newInterp`, `setExecuteConfig`, `Execute`, `ExecuteContext` are *the effect lists regenerated from /repo*.
 The theorems hold for every semantics `S` of the rest of the interpreter that satisfies `Sem.Ok` (results depend only on
@@ -22,41 +19,26 @@ namespace GoawkModel.PropsC14
 section Fields
 open GoawkModel.C14F GoawkModel.Generated.C14Fields
 
-/-- The full obligation: per class the regenerated reset functions do what the class demands (perRun: restored to the
-`newInterp` value by `resetCore`; fromConfig: definitely assigned by `setExecuteConfig`; vars / rand: restored by
-`resetVars` / `ResetRand` and untouched by the entry code; immutable: untouched by all of them; ctx: assigned by both entry
-points). -/
-def Classified : Prop := classTable.all classFact = true
-
 set_option maxRecDepth 100000 in
-/-- Exactly one field fails its obligation on the current source: `csvFields` (added by the F13 repair c7bccbd) is
-per-run state that `resetCore` does not clear — finding G14-1, replayed on the real code by the harness corpus. When
-/repo clears it in resetCore this theorem must become `leaks = []` and `classified_fails` must go. -/
-theorem leaks_exact : leaks = ["csvFields"] := by decide
-
-theorem classified_fails : ¬ Classified := by
-  intro h
-  have hmem : "csvFields" ∈ leaks := by rw [leaks_exact]; exact List.mem_singleton.mpr rfl
-  obtain ⟨e, he, _⟩ := List.mem_map.mp hmem
-  have hf := (List.mem_filter.mp he).2
-  have ht := List.all_eq_true.mp h e (List.mem_filter.mp he).1
-  simp [ht] at hf
-
-/-- Every field of `type interp struct` has a class, the table has no stale entries, and every field other than
-`csvFields` meets its class obligation. -/
-theorem classified_partial :
+/-- Every field of `type interp struct` has a class; the table has no stale entries; and per class the regenerated
+reset functions do what the class demands (perRun: restored to the `newInterp` value by `resetCore`; fromConfig:
+definitely assigned by `setExecuteConfig`; vars / rand: restored by `resetVars` / `ResetRand` and untouched by the entry
+code; immutable: untouched by all of them; ctx: assigned by both entry points). (G14-1 — `csvFields` not cleared by
+resetCore after the F13 repair — made this fail; repaired in d5c3fe1.) -/
+theorem classified :
     interpFields.all (fun f => (classOf f).isSome) = true ∧
     classTable.all (fun e => interpFields.contains e.1) = true ∧
     (classTable.map (·.1)).length = interpFields.length ∧
-    (∀ e ∈ classTable, e.1 ≠ "csvFields" → classFact e = true) := by
-  refine ⟨all_classified, table_current.1, table_current.2, ?_⟩
-  intro e he hne
-  cases hcf : classFact e with
-  | true => rfl
-  | false =>
-    have : e.1 ∈ leaks := List.mem_map.mpr ⟨e, List.mem_filter.mpr ⟨he, by simp [hcf]⟩, rfl⟩
-    rw [leaks_exact] at this
-    exact absurd (List.mem_singleton.mp this) hne
+    classTable.all classFact = true :=
+  ⟨all_classified, table_current.1, table_current.2, by decide⟩
+
+/-- no field fails its obligation on the current source, so the theorems below leave nothing out of what a run may read -/
+theorem leaks_empty : leaks = [] := by
+  have h := classified.2.2.2
+  unfold leaks
+  rw [List.map_eq_nil_iff, List.filter_eq_nil_iff]
+  intro e he
+  simp [List.all_eq_true.mp h e he]
 
 /-- the shape of the Go functions the model relies on: no conditional resets, no helper calls inside the resets,
 `setExecuteConfig` writes config-class fields only, reads nothing stale, and calls only the three known helpers;
@@ -78,41 +60,33 @@ theorem gen_matches :
 variable {Cfg Result : Type}
 
 /-- every state reachable from `New` by any history keeps its immutable fields -/
-theorem reachable_closed (S : Sem Cfg Result) (ok : S.Ok leaks) (h : List (Step Cfg)) :
+theorem reachable_closed (S : Sem Cfg Result) (ok : S.Ok []) (h : List (Step Cfg)) :
     Inv (runHistory S h freshState) :=
-  inv_history S ok h freshState inv_fresh
+  inv_history S (leaks_empty ▸ ok) h freshState inv_fresh
 
-/-- The statements at full strength (no field left out of what a run may observe). They are what the `_partial` theorems
-become when `leaks = []`; on the current source they are false for a semantics that reads `csvFields` (G14-1). -/
-def ReuseEqFreshFields : Prop :=
-  ∀ (Cfg Result : Type) (S : Sem Cfg Result), S.Ok [] → ∀ (h : List (Step Cfg)) (e : Entry) (cfg : Cfg),
-    (exec S e cfg (applyEffects resetRandEffects (applyEffects resetVarsEffects (runHistory S h freshState)))).2 =
-      (exec S e cfg freshState).2
-def WithoutResetFields : Prop :=
-  ∀ (Cfg Result : Type) (S : Sem Cfg Result), S.Ok [] → ∀ (h : List (Step Cfg)) (e : Entry) (cfg : Cfg),
-    (exec S e cfg (runHistory S h freshState)).2 = (exec S e cfg (carryOnly (runHistory S h freshState))).2
-
-/-- **Reuse = fresh** (partial: for semantics that do not read the fields in `leaks`, i.e. `csvFields`). After any history, ResetVars + ResetRand, then Execute (or ExecuteContext) gives the result of the
+/-- **Reuse = fresh.** After any history, ResetVars + ResetRand, then Execute (or ExecuteContext) gives the result of the
 same call on a newly created interpreter. -/
-theorem reuse_eq_fresh_fields_partial (S : Sem Cfg Result) (ok : S.Ok leaks) (h : List (Step Cfg)) (e : Entry) (cfg : Cfg) :
+theorem reuse_eq_fresh_fields (S : Sem Cfg Result) (ok : S.Ok []) (h : List (Step Cfg)) (e : Entry) (cfg : Cfg) :
     (exec S e cfg (applyEffects resetRandEffects (applyEffects resetVarsEffects (runHistory S h freshState)))).2 =
       (exec S e cfg freshState).2 := by
   apply ok.run_obs
+  rw [← leaks_empty]
   have hv := reset_vars_rand (runHistory S h freshState)
   exact preRun_obsEq S e cfg _ _ hv.1 hv.2 (reset_immutable _ (reachable_closed S ok h))
 
 /-- … and of `interp.ExecProgram` -/
-theorem reuse_eq_execProgram_fields_partial (S : Sem Cfg Result) (ok : S.Ok leaks) (h : List (Step Cfg)) (cfg : Cfg) :
+theorem reuse_eq_execProgram_fields (S : Sem Cfg Result) (ok : S.Ok []) (h : List (Step Cfg)) (cfg : Cfg) :
     (exec S .plain cfg (applyEffects resetRandEffects (applyEffects resetVarsEffects (runHistory S h freshState)))).2 =
       (execProgram S cfg).2 := by
-  rw [execProgram_eq_new_execute S ok cfg]
-  exact reuse_eq_fresh_fields_partial S ok h .plain cfg
+  rw [execProgram_eq_new_execute S (leaks_empty ▸ ok) cfg]
+  exact reuse_eq_fresh_fields S ok h .plain cfg
 
 /-- **Without the resets only variables and the generator carry over**: the result is that of a fresh interpreter into
 which just the variable-class and generator-class fields were copied. -/
-theorem without_reset_fields_partial (S : Sem Cfg Result) (ok : S.Ok leaks) (h : List (Step Cfg)) (e : Entry) (cfg : Cfg) :
+theorem without_reset_fields (S : Sem Cfg Result) (ok : S.Ok []) (h : List (Step Cfg)) (e : Entry) (cfg : Cfg) :
     (exec S e cfg (runHistory S h freshState)).2 = (exec S e cfg (carryOnly (runHistory S h freshState))).2 := by
   apply ok.run_obs
+  rw [← leaks_empty]
   apply preRun_obsEq
   · intro f hc _; simp [carryOnly, hc]
   · intro f hc _; simp [carryOnly, hc]
@@ -127,7 +101,7 @@ def probeSem : Sem Unit (List Tok) where
   cfgVars := fun _ _ t => t
   run := fun _ s =>
     (fun f => if classOf f = some .immutable then s f else ("dirty", f),
-     (classTable.filter (fun e => observable e.2.1 && e.2.1 != .ctx && !leaks.contains e.1)).map (fun e => s e.1))
+     (classTable.filter (fun e => observable e.2.1 && e.2.1 != .ctx)).map (fun e => s e.1))
 
 example : ∃ s₁ s₂ : FState, (probeSem.run () s₁).2 ≠ (probeSem.run () s₂).2 :=
   ⟨fun _ => ("a", ""), fun _ => ("b", ""), by decide⟩
@@ -136,7 +110,7 @@ set_option maxRecDepth 100000 in
 theorem table_functional : classTable.all (fun e => decide (classOf e.1 = some e.2.1)) = true := by decide
 
 /-- the assumptions of the field-level theorems are satisfiable by this leak-revealing semantics -/
-theorem probeSem_ok : probeSem.Ok leaks where
+theorem probeSem_ok : probeSem.Ok [] where
   run_obs := by
     intro _ s₁ s₂ h
     show List.map _ _ = List.map _ _
@@ -147,9 +121,9 @@ theorem probeSem_ok : probeSem.Ok leaks where
     have hc : classOf e.1 = some e.2.1 := by
       simpa using List.all_eq_true.mp table_functional e hmem
     simp at hobs
-    apply h e.1 e.2.1 hc (by simpa using hobs.2)
+    apply h e.1 e.2.1 hc (by simp)
     left
-    exact hobs.1.1
+    exact hobs.1
   run_immutable := by
     intro _ s f hc
     simp [probeSem, hc]
